@@ -382,4 +382,42 @@ example : (step (run init demo) (.regPipe 1 1 [2, 3] .allow)).2 = .err .deny := 
 example : (step (run init demo) (.regPipe 2 1 [2, 3] .allow)).2 = .ok := by decide
 example : (step (run init (demo ++ [.removePipe 1 1])) (.regPipe 1 1 [2, 3] .allow)).2 = .ok := by decide
 
+/-- **Option lists.** A call may carry several options: if any of them gives an invalid policy value
+the call as a whole is invalid (and, by `invalid_policy_rejected`, refused with nothing changed) —
+wherever in the list it stands and whatever follows it. -/
+theorem invalid_option_anywhere (os : List PolOpt) (h : ∃ o ∈ os, o.pol = .invalid) : effPol os = .invalid := by
+  induction os with
+  | nil => obtain ⟨o, ho, _⟩ := h; simp at ho
+  | cons o rest ih =>
+    unfold effPol
+    by_cases ho : o.pol = .invalid
+    · simp [ho]
+    · simp only [ho, if_false]
+      obtain ⟨x, hx, hxi⟩ := h
+      rw [List.mem_cons] at hx
+      rcases hx with hx | hx
+      · subst hx; exact absurd hxi ho
+      · rw [ih ⟨x, hx, hxi⟩]
+
+/-- … and a list with no invalid value is valid: it asks for the default or for what its last
+own-kind option says -/
+theorem valid_options (os : List PolOpt) (h : ∀ o ∈ os, o.pol ≠ .invalid) : effPol os ≠ .invalid := by
+  induction os with
+  | nil => simp [effPol]
+  | cons o rest ih =>
+    have h1 := h o (by simp)
+    have h2 := ih (fun x hx => h x (by simp [hx]))
+    unfold effPol
+    simp only [h1, if_false]
+    cases hr : effPol rest with
+    | invalid => exact absurd hr h2
+    | dflt => simp only; split <;> simp_all
+    | allow => simp
+    | deny => simp
+
+example : effPol [⟨true, .invalid⟩, ⟨true, .deny⟩] = .invalid := by decide
+example : effPol [⟨true, .allow⟩, ⟨false, .invalid⟩] = .invalid := by decide
+example : effPol [⟨true, .deny⟩, ⟨false, .allow⟩, ⟨true, .dflt⟩] = .deny := by decide
+example : effPol [⟨true, .deny⟩, ⟨true, .allow⟩] = .allow := by decide
+
 end Evl.C07
